@@ -32,6 +32,7 @@ type C09Case struct {
 	State string `json:"state,omitempty"`
 	Seed  uint64 `json:"seed,omitempty"`
 	Idle  bool   `json:"idle,omitempty"` // ent: simulated time passes before the call (clock seam)
+	J     int64  `json:"j,omitempty"`    // kind "idle": no call, J simulated milliseconds pass (stage-setting step of a replay plan)
 }
 
 type C09Viol struct {
@@ -190,6 +191,10 @@ func RunC09Case(c *C09Case, d *dev.Dev) (o plan.Outcome, class, detail string) {
 			}
 		}
 	}()
+	if c.Kind == "idle" {
+		zzclock.Jump(c.J)
+		return
+	}
 	if c.Kind == "count" {
 		if c.State == "afterfail" {
 			// set the stage: a legal call whose source fails after a few bytes
@@ -270,6 +275,16 @@ func RunC09(job *C09Job, d *dev.Dev, cases []C09Case) *C09Result {
 			res.ViolCount++
 			if len(res.Viol) < 8 {
 				v := C09Viol{Case: c, Class: class, Detail: detail, Out: o}
+				if ms := int64(zzclock.Offset() / 1e6); ms > 0 {
+					// simulated time has passed in this process (idle states of earlier cases): part of the stage
+					self := int64(0)
+					if (c.Kind == "count" && c.State == "afteridle") || (c.Kind == "ent" && c.Idle) {
+						self = idleMs[c.Seed%uint64(len(idleMs))]
+					}
+					if ms > self {
+						v.Stage = append(v.Stage, C09Case{Kind: "idle", J: ms - self})
+					}
+				}
 				v.Stage = append(v.Stage, accepted...)
 				if prev != nil {
 					v.Stage = append(v.Stage, *prev)
